@@ -723,6 +723,41 @@ def _check_exchange(ctx, prog, ex):
         # H4c: the command type is examined on the way to Ok
         exam = _command_examined(ex, cmd_reads, blk)
         ctx.ob("H4", ex.defp, "command-type-examined", loc(_sp_of(ex, blk)), exam[0], exam[1])
+    # H4e: the exchange refuses a request for what it asks to *do* (an unsupported command), not for what it names: the target of a well-formed
+    # request is the application's business, and `exactly the requested target` leaves no room for a proxy-side opinion on which names are
+    # acceptable (a rooted name, an underscore label). A refusing branch whose condition is computed from the decoded address is such an opinion.
+    from .common import flat_err_only as _feo
+    n_sw = 0
+    for sb in ex.rpo():
+        st_ = ex.term(sb)
+        if not st_ or st_["k"] != "switch":
+            continue
+        q = op_place(st_["d"])
+        if q is None:
+            continue
+        locs_, cs_, _ = ex.slice_back([q[0]])
+        # the test is computed from the host text / the address value: some call in the slice takes a `&str` / `String` / `Address` argument that is
+        # read out of a decoded `Address`
+        def _texty(ct):
+            for a in ct["args"]:
+                qa = op_place(a)
+                if qa is None:
+                    continue
+                ty = ex.local_ty(qa[0])
+                if ("str" in ty or "String" in ty) and any("Address" in ex.local_ty(l2) and "Result<" not in ex.local_ty(l2) for l2 in ex.slice_back([qa[0]], stop_call=lambda c_: True)[0]):
+                    return True
+            return False
+        from_addr = any(_texty(ct) for (_, cc, ct) in cs_)
+        if not from_addr:
+            continue
+        n_sw += 1
+        targets = {x for _, x in st_["arms"]} | {st_["otherwise"]}
+        refusing = [x for x in targets if (_feo(prog, ex, x) if getattr(ex, "is_flat", False) else err_return_reachable_only(ex, x))]
+        bad = bool(refusing) and len(refusing) < len(targets)
+        ctx.ob("H4", ex.defp, "no-refusal-on-the-content-of-the-address", loc(st_["sp"]), not bad,
+               "no branch on the decoded address leads to a refusal" if not bad else
+               "the exchange refuses a well-formed request because of what its address *contains* (a test computed from the decoded target selects an Err-only branch): "
+               "names the proxy's rule does not like - a rooted `example.com.`, a label with `_` - get a failure reply instead of a tunnel to exactly that name")
     # H3b: readers must not be dissolved with into_inner and re-framed (buffer discarded)
     for (blk, c, t) in calls:
         if c.name == "FramedRead::into_inner" and not t["sp"][3]:
